@@ -504,6 +504,15 @@ def explore(ctx):
                 heads.append("C" + sh + "/" + bad)
                 heads.append("C" + sh + "|" + bad)
                 heads.append(bad + "|C" + sh)
+        # near misses of the no-chord token: everything over N, C and the dot (and lower case) except the two spellings
+        for n in range(1, 6):
+            for t in itertools.product("NC.", repeat=n):
+                heads.append("".join(t))
+        for n in range(1, 5):
+            for t in itertools.product("NC.nc", repeat=n):
+                heads.append("".join(t))
+        heads += [" NC", "NC ", "N C", "N.C. ", " N.C.", "NC|C", "C|NC.", "C/NC"]
+        heads = [h for h in heads if h not in ("NC", "N.C.")]
         ctx.serial("malformed", sorted(set(heads)))
 
     if ctx.want("tables"):
